@@ -83,12 +83,38 @@ theorem rejoin_counterexamples :
     importLine ',' '"' (csvWriteRow ',' '"' [[]]) = .ok [] := by
   refine ⟨by decide, by decide, by decide⟩
 
-/-- The TSV path (`from_tsv`: no `csv.reader`) is the identity on rows whose fields need no quoting:
-    free of tab, quotechar, CR, LF, without leading / trailing space. -/
-theorem tsv_roundtrip {q : Char} (fs : List Field)
+/-- **tsv_roundtrip** (the repaired tree, 82942dd).  `to_tsv` → `from_tsv`: the tab delimiter is read through
+    `csv.reader` like every delimiter, so for every quote character (≠ tab, not CR/LF) every row — other than
+    the empty row and the lone empty cell — whose fields are free of CR / LF and of TAB and have no
+    leading / trailing space comes back unchanged; the fields may contain the quote character, commas,
+    inner spaces, and may be empty. -/
+theorem tsv_roundtrip {q : Char} (hq : q ≠ '\t') (hqn : isNl q = false) (fs : List Field)
+    (h0 : fs ≠ []) (h1 : fs ≠ [[]])
+    (hc : ∀ f ∈ fs, Clean f ∧ NoEdgeSpace f) (ht : ∀ f ∈ fs, ∀ c ∈ f, c ≠ '\t') :
+    importLineTsv q (csvWriteRow '\t' q fs) = .ok fs :=
+  rejoin_roundtrip ⟨fun h => hq h.symm, by decide, hqn⟩ fs h0 h1 hc ht
+
+example : importLineTsv '"' (csvWriteRow '\t' '"' ["a\"b".toList, [], "x,y \"\" z".toList]) =
+    .ok ["a\"b".toList, [], "x,y \"\" z".toList] := by decide
+example : csvWriteRow '\t' '"' ["a\"b".toList, "c".toList] = "\"a\"\"b\"\tc\n".toList := by decide
+
+/-- The "tab-free" hypothesis of `tsv_roundtrip` is needed: with the tab delimiter a cell holding a tab is
+    written quoted and parsed back whole by `csv.reader`, but the re-join with tab + split cuts it in two
+    (same behaviour as for any delimiter, see `rejoin_counterexamples`). -/
+theorem tsv_tab_cell_counterexample :
+    csvParseLine '\t' '"' (csvWriteRow '\t' '"' ["a\tb".toList, "c".toList]) = .ok ["a\tb".toList, "c".toList] ∧
+    importLineTsv '"' (csvWriteRow '\t' '"' ["a\tb".toList, "c".toList]) = .ok ["a".toList, "b".toList, "c".toList] := by
+  refine ⟨by decide, by decide⟩
+
+/-! #### historical: the pinned-tree TSV path (repaired in 82942dd) -/
+
+/-- pinned-tree behaviour, repaired in 82942dd: the old TSV path (`importTsvOld`: raw line to genfromtxt, no
+    `csv.reader`) was the identity only on rows whose fields need no quoting: free of tab, quotechar, CR, LF,
+    without leading / trailing space. -/
+theorem importTsvOld_quote_free_roundtrip {q : Char} (fs : List Field)
     (h0 : fs ≠ []) (h1 : fs ≠ [[]])
     (hc : ∀ f ∈ fs, Clean f ∧ NoEdgeSpace f) (ht : ∀ f ∈ fs, ∀ c ∈ f, c ≠ '\t' ∧ c ≠ q) :
-    importLineTsv (csvWriteRow '\t' q fs) = fs := by
+    importTsvOld (csvWriteRow '\t' q fs) = fs := by
   have hw : ∀ f ∈ fs, writeField '\t' q f = f := by
     intro f hf
     unfold writeField
@@ -113,7 +139,7 @@ theorem tsv_roundtrip {q : Char} (fs : List Field)
         simp only [encRow, tabJoin, hw' f (by simp)]
         rw [ih (by simp) (fun x hx => hw' x (by simp [hx]))]
         simp
-  unfold importLineTsv genSplit
+  unfold importTsvOld genSplit
   rw [csvWriteRow_eq_encRow '\t' q h0 h1, henc fs h0 hw]
   rw [strip_append_nl (tabJoin_ne_nil h0 h1) (tabJoin_head hc) (tabJoin_getLast hc)]
   have hne : (tabJoin fs).isEmpty = false := by
@@ -124,23 +150,108 @@ theorem tsv_roundtrip {q : Char} (fs : List Field)
   simp only [hne, Bool.false_eq_true, if_false]
   exact splitOnChar_tabJoin fs h0 (fun f hf c hcm => (ht f hf c hcm).1)
 
-example : importLineTsv (csvWriteRow '\t' '"' ["a b".toList, [], "x,y".toList]) = ["a b".toList, [], "x,y".toList] := by
-  decide
 
-/-- **Counterexample for the TSV path** (finding F4): `to_tsv` quotes a cell containing the quote character
-    (`csv.writer` does), `from_tsv` never unquotes: `a"b` comes back as `"a""b"`; a lone empty cell comes
-    back as `""`.  Hence the round trip statement is false for the TSV path without the "no quotechar"
-    hypothesis of `tsv_roundtrip`. -/
-theorem tsv_quote_counterexample :
-    importLineTsv (csvWriteRow '\t' '"' ["a\"b".toList]) = ["\"a\"\"b\"".toList] ∧
-    importLineTsv (csvWriteRow '\t' '"' [[]]) = ["\"\"".toList] ∧
+/-- pinned-tree behaviour, repaired in 82942dd (finding F4): `to_tsv` quotes a cell containing the quote
+    character, the old `from_tsv` never unquoted: `a"b` came back as `"a""b"`, a lone empty cell as `""`; the
+    round-trip statement was false for the old path without the "no quotechar" hypothesis. -/
+theorem importTsvOld_quote_counterexample :
+    importTsvOld (csvWriteRow '\t' '"' ["a\"b".toList]) = ["\"a\"\"b\"".toList] ∧
+    importTsvOld (csvWriteRow '\t' '"' [[]]) = ["\"\"".toList] ∧
     ¬ (∀ fs : List Field, (∀ f ∈ fs, Clean f ∧ NoEdgeSpace f) → (∀ f ∈ fs, ∀ c ∈ f, c ≠ '\t') →
-        fs ≠ [] → fs ≠ [[]] → importLineTsv (csvWriteRow '\t' '"' fs) = fs) := by
+        fs ≠ [] → fs ≠ [[]] → importTsvOld (csvWriteRow '\t' '"' fs) = fs) := by
   refine ⟨by decide, by decide, ?_⟩
   intro h
   have := h ["a\"b".toList] (by decide) (by decide) (by decide) (by decide)
   revert this
   decide
+
+/-! ### StoreFilter -/
+
+/-- Side conditions on a `StoreFilter` under which decode ∘ encode is the identity: every `from_*` string is
+    in its own `to_*` set and in none of the sets looked up before it (order nan, nat, none, posinf, neginf). -/
+structure SFWellFormed (f : StoreFilter) : Prop where
+  nan : ∀ s, f.fromNan = some s → s ∈ f.toNan
+  nat : ∀ s, f.fromNat = some s → s ∉ f.toNan ∧ s ∈ f.toNat
+  none : ∀ s, f.fromNone = some s → s ∉ f.toNan ∧ s ∉ f.toNat ∧ s ∈ f.toNone
+  posInf : ∀ s, f.fromPosInf = some s → s ∉ f.toNan ∧ s ∉ f.toNat ∧ s ∉ f.toNone ∧ s ∈ f.toPosInf
+  negInf : ∀ s, f.fromNegInf = some s → s ∉ f.toNan ∧ s ∉ f.toNat ∧ s ∉ f.toNone ∧ s ∉ f.toPosInf ∧ s ∈ f.toNegInf
+
+/-- The domain: a string cell must not be one of the decode tokens (the "unambiguous text" restriction),
+    and NaT needs a replacement string (`from_nat=None` turns NaT into `None`). -/
+def SFInDomain {α} (f : StoreFilter) : Cell α → Prop
+  | .text s => s ∉ f.toNan ∧ s ∉ f.toNat ∧ s ∉ f.toNone ∧ s ∉ f.toPosInf ∧ s ∉ f.toNegInf
+  | .nat => f.fromNat ≠ none
+  | _ => True
+
+/-- **storefilter_inverse.**  For a well-formed filter, decoding the encoded value gives the value back, for
+    NaN, None, ±inf, NaT, every other non-string value, and every string that is not a decode token. -/
+theorem storefilter_inverse {α} (f : StoreFilter) (hw : SFWellFormed f) (v : Cell α) (hv : SFInDomain f v) :
+    sfDecode f (sfEncode f v) = v := by
+  cases v with
+  | none =>
+    cases h : f.fromNone with
+    | none => simp [sfEncode, sfDecode, h]
+    | some s => obtain ⟨a, b, c⟩ := hw.none s h; simp [sfEncode, sfDecode, h, a, b, c]
+  | nan =>
+    cases h : f.fromNan with
+    | none => simp [sfEncode, sfDecode, h]
+    | some s => have a := hw.nan s h; simp [sfEncode, sfDecode, h, a]
+  | nat =>
+    cases h : f.fromNat with
+    | none => exact absurd h hv
+    | some s => obtain ⟨a, b⟩ := hw.nat s h; simp [sfEncode, sfDecode, h, a, b]
+  | posInf =>
+    cases h : f.fromPosInf with
+    | none => simp [sfEncode, sfDecode, h]
+    | some s => obtain ⟨a, b, c, d⟩ := hw.posInf s h; simp [sfEncode, sfDecode, h, a, b, c, d]
+  | negInf =>
+    cases h : f.fromNegInf with
+    | none => simp [sfEncode, sfDecode, h]
+    | some s => obtain ⟨a, b, c, d, e⟩ := hw.negInf s h; simp [sfEncode, sfDecode, h, a, b, c, d, e]
+  | text s =>
+    obtain ⟨a, b, c, d, e⟩ := hv
+    simp [sfEncode, sfDecode, a, b, c, d, e]
+  | plain x => simp [sfEncode, sfDecode]
+
+/-- The default `StoreFilter()` is well-formed except for NaT (`from_nat=''` but `to_nat` is empty):
+    the inverse holds for every value other than NaT on the domain ... -/
+theorem storefilter_default_inverse {α} (v : Cell α) (hn : v ≠ .nat) (hv : SFInDomain storeFilterDefault v) :
+    sfDecode storeFilterDefault (sfEncode storeFilterDefault v) = v := by
+  cases v with
+  | nat => exact absurd rfl hn
+  | text s =>
+    obtain ⟨a, b, c, d, e⟩ := hv
+    simp [sfEncode, sfDecode, a, b, c, d, e]
+  | none => rfl
+  | nan => rfl
+  | posInf => rfl
+  | negInf => rfl
+  | plain x => simp [sfEncode, sfDecode]
+
+/-- ... and outside the domain it does not: with the defaults NaT is written as the empty string and read
+    back as NaN; the strings `""`, `"nan"`, `"None"`, `"inf"` are read back as NaN / None / +inf (this is why
+    the round-trip claim is restricted to unambiguous texts). -/
+theorem storefilter_default_counterexamples :
+    sfDecode storeFilterDefault (sfEncode storeFilterDefault (.nat : Cell Nat)) = .nan ∧
+    sfDecode storeFilterDefault (sfEncode storeFilterDefault (.text [] : Cell Nat)) = .nan ∧
+    sfDecode storeFilterDefault (sfEncode storeFilterDefault (.text "nan".toList : Cell Nat)) = .nan ∧
+    sfDecode storeFilterDefault (sfEncode storeFilterDefault (.text "None".toList : Cell Nat)) = .none ∧
+    sfDecode storeFilterDefault (sfEncode storeFilterDefault (.text "inf".toList : Cell Nat)) = .posInf := by
+  refine ⟨by decide, by decide, by decide, by decide, by decide⟩
+
+/-- Non-vacuity of `storefilter_inverse`: the defaults plus a NaT token form a well-formed filter. -/
+def storeFilterWithNat : StoreFilter :=
+  { storeFilterDefault with fromNat := some "NaT".toList, toNat := ["NaT".toList] }
+
+theorem storeFilterWithNat_wellFormed : SFWellFormed storeFilterWithNat := by
+  refine ⟨?_, ?_, ?_, ?_, ?_⟩ <;>
+  · intro s h
+    simp only [storeFilterWithNat, storeFilterDefault, Option.some.injEq] at h
+    subst h
+    decide
+
+example : SFInDomain storeFilterDefault (.text "x y".toList : Cell Nat) := by unfold SFInDomain; decide
+example : sfEncode storeFilterDefault (.nan : Cell Nat) = .text [] := by decide
 
 /-! ### record layout -/
 
